@@ -1,5 +1,6 @@
 import SwcVerif.Props.C16
 import SwcVerif.Props.C16Length
+import SwcVerif.Props.C16Pair
 #print axioms C16.cumdist_spec
 #print axioms C16.linspace_spec
 #print axioms C16.iso_step_le
@@ -17,3 +18,6 @@ import SwcVerif.Props.C16Length
 #print axioms C16.resample_length_le
 #print axioms C16.linearResample_length_le
 #print axioms C16.isoResample_length_le
+#print axioms C16.pairArgmin_spec
+#print axioms C16.pair_step_inv
+#print axioms C16.pair_exact
